@@ -61,7 +61,7 @@ CLAIMED.update({
          "tech": BT},
 })
 CLAIMED.update({
- "C06": {"cat": "other", "text": "Proved: Header.to_value reads the cell under the header by name or by index and reads as absent (None) on a short row or unknown header; CsvPath.header_index is the first position (loop invariant, array-encoded list); limit_collection is the identity without collect(). Bounded: files written by csv.writer (4 delimiters x 2 quote chars, quotes/delimiters/newlines/unicode/BOM in cells, ragged and blank records) are read back through the real CsvPath and compared with csv.reader's own parse; headers against the documented cleaning.",
+ "C06": {"cat": "other", "text": "Proved: CsvPath._next_line hands on exactly the records the reader gives, in order, each tracked by the line monitor first (track_line: one step of the 0-based record number per record) and finalizes once at the end; Header.to_value reads the cell under the header by name or by index and reads as absent (None) on a short row or unknown header; CsvPath.header_index is the first position (loop invariant, array-encoded list); limit_collection is the identity without collect(). Bounded: files written by csv.writer (4 delimiters x 2 quote chars, quotes/delimiters/newlines/unicode/BOM in cells, ragged and blank records) are read back through the real CsvPath and compared with csv.reader's own parse; headers against the documented cleaning.",
          "note": "csv dialect parsing itself is external ([A] csv.reader); CsvDataReader.next / LineCounter loops are covered by the bounded files only; xlsx/s3/pandas readers not covered.",
          "tech": BT},
 })
